@@ -89,7 +89,7 @@ theorem isBool_eval (env : Env C K) (x : List K) : ∀ e : Expr C, e.isBool = tr
   | .false_, _ => Or.inl rfl
   | .isZero _, _ => b2r_cases _
   | .num _, h | .var _, h | .add _ _, h | .sub _ _, h | .mul _ _, h | .div _ _, h | .neg _, h
-  | .max _ _, h | .min _ _, h | .tol _, h => by simp [Expr.isBool] at h
+  | .max _ _, h | .min _ _, h | .tol _, h | .abs _, h | .app1 _ _, h | .app2 _ _ _, h => by simp [Expr.isBool] at h
 
 theorem isBool_eval_nonneg (env : Env C K) (x : List K) (e : Expr C) (h : e.isBool = true) :
     0 ≤ e.eval env x := by
@@ -122,11 +122,11 @@ theorem eval_set_of_not_mentions (env : Env C K) (x : List K) (i : Nat) (v : K) 
     have : j ≠ i := by simpa [Expr.mentions] using h
     simp only [Expr.eval]; exact getD_set_ne x i j v this
   | add a b iha ihb | sub a b iha ihb | mul a b iha ihb | div a b iha ihb | max a b iha ihb
-  | min a b iha ihb | equal a b iha ihb | bor a b iha ihb =>
+  | min a b iha ihb | equal a b iha ihb | bor a b iha ihb | app2 f a b iha ihb =>
     intro h
     simp only [Expr.mentions, Bool.or_eq_false_iff] at h
     simp only [Expr.eval, iha h.1, ihb h.2]
-  | neg a iha | tol a iha | isZero a iha =>
+  | neg a iha | tol a iha | isZero a iha | abs a iha | app1 f a iha =>
     intro h
     simp only [Expr.mentions] at h
     simp only [Expr.eval, iha h]
@@ -140,12 +140,12 @@ theorem eval_congr (env : Env C K) (x y : List K) :
   | num c => intro _; rfl
   | var j => intro h; simp only [Expr.eval]; exact h j (by simp [Expr.mentions])
   | add a b iha ihb | sub a b iha ihb | mul a b iha ihb | div a b iha ihb | max a b iha ihb
-  | min a b iha ihb | equal a b iha ihb | bor a b iha ihb =>
+  | min a b iha ihb | equal a b iha ihb | bor a b iha ihb | app2 f a b iha ihb =>
     intro h
     have ha := iha (fun j hj => h j (by simp [Expr.mentions, hj]))
     have hb := ihb (fun j hj => h j (by simp [Expr.mentions, hj]))
     simp only [Expr.eval, ha, hb]
-  | neg a iha | tol a iha | isZero a iha =>
+  | neg a iha | tol a iha | isZero a iha | abs a iha | app1 f a iha =>
     intro h
     have ha := iha (fun j hj => h j (by simpa [Expr.mentions] using hj))
     simp only [Expr.eval, ha]
